@@ -40,7 +40,14 @@ def m_read(ex, st, obj, args, kwargs, node):
     return [(st, VUnk("bytes"))]
 
 
+def havoc_pos(ex, st, obj):
+    t = z3.Int(fresh_name("pos"))
+    st.assume(t >= 0)
+    st.ghost[pos_key(obj)] = t
+
+
 def install_bytesio(reg):
+    reg.ext_models[("havoc", "BytesIO")] = havoc_pos
     reg.method_models[("BytesIO", "tell")] = m_tell
     reg.method_models[("BytesIO", "seek")] = m_seek
     reg.method_models[("BytesIO", "read")] = m_read
